@@ -44,6 +44,11 @@ def audit(src):
         for n in ast.walk(st):
             if isinstance(n, ast.Attribute) and n.attr == 'last':
                 probs.append('self.last accessed outside the locked region')
+            # the reading must stay thread-local: nothing shared may be written before the lock is taken
+            if isinstance(n, (ast.Assign, ast.AugAssign)):
+                for t in (n.targets if isinstance(n, ast.Assign) else [n.target]):
+                    if isinstance(t, ast.Attribute):
+                        probs.append('shared attribute %s written outside the locked region' % ast.unparse(t))
     if not body or not isinstance(body[-1], ast.With):
         probs.append('__call__ does not end with a `with self.lock` region')
     else:
@@ -64,6 +69,18 @@ def audit(src):
             last = kw.get('last', args[1] if len(args) > 1 else None)
             if now is None:
                 probs.append('no clock argument')
+            else:
+                nm = now
+                if isinstance(nm, ast.Name):
+                    # a local computed before the lock: find its defining expression
+                    defs = [st.value for st in pre if isinstance(st, ast.Assign) and any(
+                        isinstance(t, ast.Name) and t.id == nm.id for t in st.targets)]
+                    nm = defs[-1] if defs else nm
+                if not (isinstance(nm, ast.Call) and isinstance(nm.func, ast.Name) and nm.func.id == 'int'):
+                    probs.append('the clock reading passed to _next_timestamp is not truncated to an integer (int(...))')
+                if any(isinstance(x, ast.Attribute) and isinstance(x.value, ast.Name) and x.value.id == 'self'
+                       for x in ast.walk(now)):
+                    probs.append('the clock reading is taken from shared state (self.*) instead of a thread-local value')
             if not (isinstance(last, ast.Attribute) and last.attr == 'last' and isinstance(last.value, ast.Name) and last.value.id == 'self'):
                 probs.append('`last` argument is not self.last read inside the locked region')
     # self.last written only in __init__ and _next_timestamp
@@ -82,7 +99,8 @@ def audit(src):
 
 
 class FakeReading(object):
-    """stands for time.time(): `reading * 1e6` yields the scripted integer microseconds exactly"""
+    """stands for time.time(): `reading * 1e6` yields the scripted microseconds exactly; a scripted reading may
+    carry a sub-microsecond fraction (k + 0.25 ...), as real float clocks do"""
     def __init__(self, us):
         self.us = us
 
@@ -91,12 +109,16 @@ class FakeReading(object):
 
 
 class FakeTime(object):
-    def __init__(self, readings):
+    def __init__(self, readings, per_thread=None):
         self.readings = list(readings)
         self.i = 0
         self.lock = threading.Lock()
+        self.per_thread = per_thread     # thread name -> list of readings (detsched runs)
 
     def time(self):
+        if self.per_thread is not None:
+            lst = self.per_thread[threading.current_thread().name]
+            return FakeReading(lst.pop(0) if len(lst) > 1 else lst[0])
         with self.lock:
             r = self.readings[min(self.i, len(self.readings) - 1)]
             self.i += 1
@@ -144,6 +166,54 @@ def stress(ctx, nthreads, per, readings):
         sys.setswitchinterval(oldsw)
         T.time = old
     return out
+
+
+def explore_interleavings(ctx):
+    """Directed search (not a proof): two real threads on the real generator, switched at source-line granularity
+    under every schedule with at most two preemptions, with per-thread clock readings; then a third, later call."""
+    from vf import detsched
+    import cassandra.timestamps as T
+    old = T.time
+    n = 0
+    try:
+        for (ra, rb) in ((1, 1), (1, 2), (2, 1), (3, 1), (1, 3)):
+            for sched in detsched.schedules_two_threads(9, 2):
+                g = T.MonotonicTimestampGenerator(warn_on_drift=False)
+                g.last = 0
+                ft = FakeTime([], per_thread={'A': [ra * 10**6], 'B': [rb * 10**6], 'C': [1]})
+                T.time = ft
+
+                def body(name):
+                    def f():
+                        threading.current_thread().name = name
+                        return g()
+                    return f
+                r = detsched.Run([body('A'), body('B')], ['cassandra/timestamps.py'], sched).run()
+                threading.current_thread().name = 'C'
+                ft.per_thread[threading.current_thread().name] = [1]
+                third = g()
+                n += 1
+                a, b = r.results
+                ctx.case(['sched', ra, rb, sched], nontrivial=True)
+                bad = None
+                if r.errors[0] or r.errors[1] or a is None or b is None:
+                    bad = 'call raised or did not finish: %r %r' % (r.errors, r.results)
+                elif a == b:
+                    bad = 'two threads returned the same timestamp %d' % a
+                elif a < ra * 10**6 or b < rb * 10**6:
+                    bad = 'a call returned a value behind its own clock reading (A read %d got %d, B read %d got %d)' % (ra * 10**6, a, rb * 10**6, b)
+                elif not third > max(a, b):
+                    bad = 'a later call returned %d, not above the earlier %d/%d' % (third, a, b)
+                if bad:
+                    ctx.violation('interleaving.' + bad.split(' ')[0] + '.' + bad.split(' ')[1], 'threads A (reads %ds) and B (reads %ds), schedule %r: %s' % (ra, rb, sched, bad),
+                                  case={'threads': 'detsched', 'ra': ra, 'rb': rb, 'schedule': sched}, kind='interleaving',
+                                  expected='distinct, not behind the own reading, later call larger', actual={'A': a, 'B': b, 'third': third},
+                                  theorem='C31_strict/C31_not_behind')
+                    return
+    finally:
+        T.time = old
+        threading.current_thread().name = 'MainThread'
+    ctx.count('threaded_calls', 'detsched_schedules', n)
 
 
 def run(ctx):
@@ -217,6 +287,26 @@ def run(ctx):
                           case={'threads': 8, 'per_thread': 300, 'clock': 'stuck/backward', 'round': rd}, kind='interleaving',
                           expected='all distinct', actual={'duplicates': dup}, theorem='C31_strict')
             break
+    # sub-microsecond fractions: the reading is truncated BEFORE it is compared (model input = floor of the reading)
+    import math
+    for _ in range(200 if ctx.tier == 'quick' else 3000):
+        base = ctx.rng.randrange(10**6, 2**40)
+        clock = []
+        for _k in range(ctx.rng.randint(2, 6)):
+            base += ctx.rng.choice([0, 0, 1, 2, -1])
+            clock.append(base + ctx.rng.choice([0.0, 0.25, 0.5, 0.75]))
+        got = run_impl(int(clock[0]) - 3, clock)
+        ctx.case(['frac', clock], nontrivial=True)
+        ctx.count('len', 'fractional')
+        prev = int(clock[0]) - 3
+        for now, r in zip(clock, got):
+            if not (isinstance(r, int) and r > prev and r >= math.floor(now)):
+                ctx.violation('fractional-reading.not-strictly-increasing', 'readings %r (us, with sub-microsecond fractions) -> %r' % (clock, got),
+                              case={'last': int(clock[0]) - 3, 'clock': clock}, expected='strictly increasing integers', actual=got,
+                              theorem='C31_strict')
+                break
+            prev = r
+    explore_interleavings(ctx)
     ctx.assume('one MonotonicTimestampGenerator.__call__ is one atomic step (checked by the lock audit)',
                'the clock reading int(time.time()*1e6) is an arbitrary integer input of the model')
 
@@ -231,6 +321,28 @@ def replay(ctx, rp):
             if not (r > prev) or r < now:
                 bad = True
             prev = r
+        print(('VIOLATION property=C31 replay=%s' % ctx.replay_path) if bad else 'not reproduced')
+        return 1 if bad else 0
+    if case.get('threads') == 'detsched':
+        from vf import detsched
+        import cassandra.timestamps as T
+        old = T.time
+        try:
+            g = T.MonotonicTimestampGenerator(warn_on_drift=False)
+            g.last = 0
+            T.time = FakeTime([], per_thread={'A': [case['ra'] * 10**6], 'B': [case['rb'] * 10**6]})
+
+            def body(name):
+                def f():
+                    threading.current_thread().name = name
+                    return g()
+                return f
+            r = detsched.Run([body('A'), body('B')], ['cassandra/timestamps.py'], case['schedule']).run()
+        finally:
+            T.time = old
+        a, b = r.results
+        print('detsched replay: A=%r B=%r (readings %ds / %ds)' % (a, b, case['ra'], case['rb']))
+        bad = a is None or b is None or a == b or a < case['ra'] * 10**6 or b < case['rb'] * 10**6
         print(('VIOLATION property=C31 replay=%s' % ctx.replay_path) if bad else 'not reproduced')
         return 1 if bad else 0
     if case.get('threads'):
